@@ -350,8 +350,6 @@ def C05(run):
         run.judge(v, trk, "sched-" + kind, only="C05:")
         # a run that hangs or fails is reported by TraceSystem (C05 liveness on the real code: the request must terminate)
         v2 = run.validate_sharded("TraceSystem", trk, boundary='"ev":"prog"', shards=12, xss="512m")
-        v2["bad"] = [dict(i=b["i"], why=[w.replace("C01:", "C05:") for w in b["why"] if w.startswith("C01:request_failed") or w.startswith("C01:panic")]) for b in v2["bad"]]
-        v2["bad"] = [b for b in v2["bad"] if b["why"]]
         run.judge(v2, trk, "sched-" + kind + "-termination", only="C05:")
         run.cov["distinct_nontrivial"] += info["distinct_nontrivial"]
         total += info["records"]
